@@ -9,7 +9,10 @@ import (
 func formatForConsole(argumentList []Value) string {
 	output := []string{}
 	for _, argument := range argumentList {
-		output = append(output, fmt.Sprintf("%v", argument))
+		// Converted here, not by fmt: fmt recovers a panic that comes out of
+		// a String method, and would swallow the one an interrupt raises
+		// inside the argument's toString.
+		output = append(output, argument.string())
 	}
 	return strings.Join(output, " ")
 }
